@@ -102,3 +102,55 @@ def check(chk):
         if name.startswith('Encoder.cql_encode_') and name not in ('Encoder.cql_encode_decimal', 'Encoder.cql_encode_datetime'):
             lossy = [src(n) for n in body_walk(f) if isinstance(n, ast.Call) and isinstance(n.func, ast.Name) and n.func.id in ('float', 'round') and n.args and src(n.args[0]) == 'val']
             chk.judge(not lossy, 'C29.lossless', f, '%s does not narrow its value' % name, 'value narrowed with %s' % lossy, nontrivial=False)
+
+    # ---- the user's statements are encoded with the session's encoder (the one carrying the session's type mappings: tuples, registered UDTs)
+    chk.rule('C29.encoder', 'parameters of user statements are substituted with the session\'s encoder; a private Encoder() only where no session is known')
+    qm = chk.repo.mod('cassandra/query.py')
+    cm_ = chk.repo.mod('cassandra/cluster.py')
+    from ..cfg import CFG as _CFG, Flow as _Flow
+    n_bp = 0
+    for m_, qual in ((qm, 'BatchStatement.add'), (cm_, 'Session._create_response_future')):
+        f = m_.func(qual)
+        g = _CFG(f)
+        fl = _Flow(g, 0, lambda n, c: c)
+        for nd in g.stmt_nodes():
+            if nd.kind != 'stmt' or nd.ast is None:
+                continue
+            for c in walk_no_nested(nd.ast):
+                if not (isinstance(c, ast.Call) and src(c.func) == 'bind_params' and len(c.args) == 3):
+                    continue
+                n_bp += 1
+                enc = c.args[2]
+                # resolve a local through its definitions in this function
+                exprs = [enc]
+                if isinstance(enc, ast.Name):
+                    exprs = [a.value for a in body_walk(f) if isinstance(a, ast.Assign) and any(isinstance(t, ast.Name) and t.id == enc.id for t in a.targets)] or [enc]
+                ok = True
+                why = ''
+                for e in exprs:
+                    arms = [e]
+                    if isinstance(e, ast.IfExp):
+                        # `Encoder() if self._session is None else self._session.encoder`
+                        k = src(e.test)
+                        arms = []
+                        for arm, pol in ((e.body, True), (e.orelse, False)):
+                            if isinstance(arm, ast.Call) and src(arm.func) == 'Encoder':
+                                from ..guards import normalise_atom
+                                key, flip = normalise_atom(e.test)
+                                if not (key in ('self._session is None', 'session is None') and (pol != flip)):
+                                    ok, why = False, 'a fresh Encoder() is used although a session may be known (%s)' % src(e)
+                            else:
+                                arms.append(arm)
+                    for arm in arms:
+                        t = src(arm)
+                        if isinstance(arm, ast.Call) and src(arm.func) == 'Encoder':
+                            sts = list(fl.at(nd))
+                            if not (sts and all(fa.knows('self._session is None') is True for fa, _c in sts)):
+                                ok, why = False, 'a fresh Encoder() is used although a session may be known'
+                        elif not t.endswith('.encoder'):
+                            ok, why = False, 'encoder argument is %s' % t
+                chk.judge(ok, 'C29.encoder', c, '%s: bind_params(..., %s) uses the session encoder' % (qual, src(enc)),
+                          '%s: a SimpleStatement\'s parameters are encoded without the session\'s type mappings - a tuple becomes a list literal and a registered '
+                          'user type instance is substituted as its repr(), which is not a CQL term' % why)
+    if n_bp < 2:
+        raise AnalysisError('C29.encoder: bind_params call sites in BatchStatement.add / Session._create_response_future not found (%d)' % n_bp)
